@@ -1,0 +1,105 @@
+//go:build verif
+
+// Contracts for contract-based deductive verification (govc, /verif).
+// This file contains comments only; it adds no code to the package.
+
+package bitvector
+
+//@ # bvbit(bv, j): bit j of the vector, LSB-first inside each byte
+//@ spec func bvbit(bv *BitVector, j int) bool = bit(bv.b[j/8], j%8)
+//@ # representation invariant
+//@ spec func bvok(bv *BitVector) bool = bv.len > 0 && 8*len(bv.b) >= bv.len
+
+//@ func NewFromBytes
+//@   property C39
+//@   ensures err-iff: (result1 != nil) <==> (l <= 0 || len(b)*8 < l)
+//@   ensures nil-on-error: result1 != nil ==> result0 == nil
+//@   ensures ok: result1 == nil ==> result0 != nil && fresh(result0) && result0.len == l && result0.b == b && bvok(result0)
+//@   assigns nothing
+
+//@ func New
+//@   property C39
+//@   note lengths below -7 make the byte count negative (make panics); the property quantifies over lengths >= 1
+//@   requires l >= 1 && l <= 4294967296
+//@   ensures ok: result1 == nil && result0 != nil && fresh(result0) && fresh(result0.b) && result0.len == l && bvok(result0)
+//@   ensures all-false: forall j :: 0 <= j && j < l ==> !bvbit(result0, j)
+//@   assigns nothing
+
+//@ func (*BitVector).Get
+//@   property C39
+//@   requires 0 <= i && i < 8*len(bv.b)
+//@   ensures result == bvbit(bv, i)
+//@   assigns nothing
+
+//@ func (*BitVector).set
+//@   property C39
+//@   requires 0 <= i && i < 8*len(bv.b)
+//@   ensures target: bvbit(bv, i) == v
+//@   ensures others: forall j :: 0 <= j && j < 8*len(bv.b) && j != i ==> bvbit(bv, j) == old(bvbit(bv, j))
+//@   assigns elems(bv.b)
+
+//@ func (*BitVector).Set
+//@   property C39
+//@   requires bvok(bv) && 0 <= i && i < bv.len
+//@   ensures target: bvbit(bv, i)
+//@   ensures others: forall j :: 0 <= j && j < bv.len && j != i ==> bvbit(bv, j) == old(bvbit(bv, j))
+//@   assigns elems(bv.b)
+
+//@ func (*BitVector).Unset
+//@   property C39
+//@   requires bvok(bv) && 0 <= i && i < bv.len
+//@   ensures target: !bvbit(bv, i)
+//@   ensures others: forall j :: 0 <= j && j < bv.len && j != i ==> bvbit(bv, j) == old(bvbit(bv, j))
+//@   assigns elems(bv.b)
+
+//@ func (*BitVector).SetBytes
+//@   property C39
+//@   requires bvok(bv) && ref(bs) != ref(bv.b)
+//@   ensures err-iff: (result != nil) <==> (len(bs) != len(bv.b))
+//@   ensures merged: result == nil ==> forall j :: 0 <= j && j < 8*len(bv.b) ==> bvbit(bv, j) == (old(bvbit(bv, j)) || bit(bs[j/8], j%8))
+//@   ensures unchanged-on-error: result != nil ==> forall j :: 0 <= j && j < 8*len(bv.b) ==> bvbit(bv, j) == old(bvbit(bv, j))
+//@   assigns elems(bv.b)
+//@   loop 1 assigns elems(bv.b)
+//@   loop 1 invariant 0 <= i && i <= 8*len(bv.b) && len(bs) == len(bv.b)
+//@   loop 1 invariant forall j :: 0 <= j && j < i ==> bvbit(bv, j) == (old(bvbit(bv, j)) || bit(bs[j/8], j%8))
+//@   loop 1 invariant forall j :: i <= j && j < 8*len(bv.b) ==> bvbit(bv, j) == old(bvbit(bv, j))
+//@   loop 1 decreases 8*len(bv.b) - i
+
+//@ func (*BitVector).UnsetBytes
+//@   property C39
+//@   requires bvok(bv) && ref(bs) != ref(bv.b)
+//@   ensures err-iff: (result != nil) <==> (len(bs) != len(bv.b))
+//@   ensures cleared: result == nil ==> forall j :: 0 <= j && j < 8*len(bv.b) ==> bvbit(bv, j) == (old(bvbit(bv, j)) && !bit(bs[j/8], j%8))
+//@   ensures unchanged-on-error: result != nil ==> forall j :: 0 <= j && j < 8*len(bv.b) ==> bvbit(bv, j) == old(bvbit(bv, j))
+//@   assigns elems(bv.b)
+//@   loop 1 assigns elems(bv.b)
+//@   loop 1 invariant 0 <= i && i <= 8*len(bv.b) && len(bs) == len(bv.b)
+//@   loop 1 invariant forall j :: 0 <= j && j < i ==> bvbit(bv, j) == (old(bvbit(bv, j)) && !bit(bs[j/8], j%8))
+//@   loop 1 invariant forall j :: i <= j && j < 8*len(bv.b) ==> bvbit(bv, j) == old(bvbit(bv, j))
+//@   loop 1 decreases 8*len(bv.b) - i
+
+//@ func (*BitVector).Equals
+//@   property C39
+//@   requires bvok(bv)
+//@   ensures all-set: result ==> forall j :: 0 <= j && j < bv.len ==> bvbit(bv, j)
+//@   ensures some-unset: !result ==> exists j :: 0 <= j && j < bv.len && !bvbit(bv, j)
+//@   assigns nothing
+//@   witness 8*i + length, 8*i, 8*i + 1, 8*i + 2, 8*i + 3, 8*i + 4, 8*i + 5, 8*i + 6, 8*i + 7
+//@   loop 1 invariant 0 <= i && i <= l && 8*l >= bv.len && 8*l < bv.len + 8 && l <= len(bv.b)
+//@   loop 1 invariant i < l ==> length == bv.len % 8
+//@   loop 1 invariant forall j :: 0 <= j && j < 8*i && j < bv.len ==> bvbit(bv, j)
+//@   loop 1 decreases l - i
+//@   loop 2 invariant 0 <= length && length <= bv.len % 8 && i == l - 1 && bv.len % 8 != 0 && 0 <= i && i < len(bv.b) && 8*l >= bv.len && 8*l < bv.len + 8
+//@   loop 2 invariant forall j :: 0 <= j && j < 8*i ==> bvbit(bv, j)
+//@   loop 2 invariant forall j :: 8*i + length <= j && j < bv.len ==> bvbit(bv, j)
+//@   loop 2 decreases length
+
+//@ func (*BitVector).Bytes
+//@   property C39
+//@   ensures result == bv.b
+//@   assigns nothing
+
+//@ func (*BitVector).Len
+//@   property C39
+//@   ensures result == bv.len
+//@   assigns nothing
